@@ -500,12 +500,39 @@ theorem Sat.callFnS {ev : EvS} (hev : SatEv ev) (C : Nat) (f : Fn) (args : List 
   unfold EvalStore.callFnS
   split <;> ev_tac
 
-theorem Sat.memberVS (K : Nat) (name : Name) (x : Value) : Sat (memberVS K name x) := by
-  unfold EvalStore.memberVS
-  split <;> ev_tac
+theorem Sat.memberNoneS (K : Nat) : Sat (memberNoneS K) := by
+  unfold EvalStore.memberNoneS
+  ev_tac
+
+mutual
+theorem Sat.memberVS (name : Name) : ∀ (x : Value) (K : Nat), Sat (memberVS K name x)
+  | .dict d, K => by rw [EvalStore.memberVS]; ev_tac
+  | .tuple l, K => by
+    have ih := fun K => Sat.memberVSL name l K
+    rw [EvalStore.memberVS]; ev_tac
+  | .list l, K => by
+    have ih := fun K => Sat.memberVSL name l K
+    rw [EvalStore.memberVS]; ev_tac
+  | .iter l, K => by
+    have ih := fun K => Sat.memberVSL name l K
+    rw [EvalStore.memberVS]; ev_tac
+  | .set _, K => by rw [EvalStore.memberVS]; ev_tac
+  | .null, K => by rw [EvalStore.memberVS]; exact Sat.memberNoneS K
+  | .bool _, K => by rw [EvalStore.memberVS]; exact Sat.memberNoneS K
+  | .int _, K => by rw [EvalStore.memberVS]; exact Sat.memberNoneS K
+  | .flt _, K => by rw [EvalStore.memberVS]; exact Sat.memberNoneS K
+  | .str _, K => by rw [EvalStore.memberVS]; exact Sat.memberNoneS K
+  | .host _, K => by rw [EvalStore.memberVS]; exact Sat.memberNoneS K
+theorem Sat.memberVSL (name : Name) : ∀ (l : VL) (K : Nat), Sat (memberVSL K name l)
+  | [], K => by rw [EvalStore.memberVSL]; ev_tac
+  | x :: xs, K => by
+    have ih := Sat.memberVSL name xs K
+    have ihx := Sat.memberVS name x K
+    rw [EvalStore.memberVSL]; ev_tac
+end
 
 theorem Sat.memberOfS (C : Nat) (r : ObjS) (name : Name) : Sat (memberOfS C r name) := by
-  have := Sat.memberVS
+  have := fun K x => Sat.memberVS name x K
   unfold EvalStore.memberOfS
   split <;> ev_tac
 
